@@ -294,6 +294,27 @@ def opsC08 : List (String × Handler) := [
         let u := DMat.mulVec J Dv
         return fmt (lhs ++ rhs ++ [qualityDen J Dv R, DVec.normSq u + k 2 * wsq lam Dv])
       | _ => throw "arity"),
+  -- c08.diag lo hi m n J(m*n) nd damps(nd) -> diag(A)(n) as LM.step leaves it at the trial after the dampings `damps`
+  --   (clamp once, then d += d*damping per trial) ; Λ(n) = that − diag(JᵀJ)   (model lmDiag / lmShiftVec)
+  ("c08.diag", fun ts => do
+      match ts with
+      | lo :: hi :: m :: n :: rest =>
+        let lo ← num lo
+        let hi ← num hi
+        let m ← nat m
+        let n ← nat n
+        let (jt, rest) ← Wire.take (m * n) rest
+        match rest with
+        | nd :: rest =>
+          let nd ← nat nd
+          let (dt, rest) ← Wire.take nd rest
+          if !rest.isEmpty then throw "arity"
+          let J := rowsOf m n (← nums jt)
+          let damps ← nums dt
+          let a := diagJtJ n J
+          return fmt (a.map (fun x => lmDiag lo hi x damps) ++ lmShiftVec n lo hi damps J)
+        | _ => throw "arity"
+      | _ => throw "arity"),
   -- c08.loss nk kernel* nouts (nitems dim values*)*  -> loss
   ("c08.loss", fun ts => do
       match ts with
